@@ -34,6 +34,7 @@ ASSUMPTIONS = ['sub-ids never equal "REC" (characters 8..10 of a TRAILER RECORD 
                'row text is drawn from the printable part of the codec repertoire without CR/LF (rows also travel through CSV)']
 
 ENCODINGS = ['latin_1', 'cp500', 'cp037', 'ascii']
+SUBID_POOL = ['001', '002', '003', '004', '005', '006', '007', '008', '009', '010', 'A01', 'A02', 'B01', 'XYZ', 'xxx', 'www']   # ('yyy' and 'zzz' are reserved for long_run_files)
 PACKAGED_TABLES = cfgmod.config['mci_parameter_tables']
 
 
@@ -87,8 +88,10 @@ def extract_files(draw, tier):
         tables = tables[1:] or ['IP%04dT1' % (int(wanted[2:6]) % 9000 + 1)]
     # a table may be listed under several sub-ids (the index maps sub-id -> table)
     owners = list(tables) + [draw(st.sampled_from(tables)) for _ in range(draw(st.sampled_from([0, 0, 1, 2, 3])))]
-    subids = draw(st.lists(st.text(alphabet='0123456789ABCDEFGHIJKLMNOPQRSTUVWXYZ', min_size=3, max_size=3).filter(lambda s: s != 'REC'),
-                           min_size=len(owners), max_size=len(owners), unique=True))
+    # sub-ids: random, or from a small pool so that different files of one run give the same sub-id to different tables
+    subid = st.one_of(st.text(alphabet='0123456789ABCDEFGHIJKLMNOPQRSTUVWXYZ', min_size=3, max_size=3).filter(lambda s: s != 'REC'),
+                      st.sampled_from(SUBID_POOL), st.sampled_from(SUBID_POOL))
+    subids = draw(st.lists(subid, min_size=len(owners), max_size=len(owners), unique=True))
     order = draw(st.permutations(list(range(len(owners)))))
     index = [(subids[i], owners[i]) for i in order]          # file order of the index records
     subs_of = {}
@@ -97,7 +100,16 @@ def extract_files(draw, tier):
     maxend = max([v['end'] for v in layout.values()] + [60])
     rows = []
     nrows = draw(st.one_of(uniform(0, 6), uniform(2, 25)))
+    spare = [x for x in SUBID_POOL if x not in subids]
     for i in range(nrows):
+        if draw(uniform(0, 5)) == 0:
+            # a row that belongs to no table of this file: its sub-id is not in the index (compressed form) and its table id
+            # is neither listed nor asked for (expanded form) - extract files carry such filler rows; they are nobody's rows
+            t = 'IP%04dT9' % draw(uniform(1, 9998))
+            if t != wanted and t not in tables:
+                ts = draw(st.text(alphabet='0123456789', min_size=10, max_size=10))
+                rows.append((t, ts, 'A', draw(st.text(alphabet=alpha, min_size=1, max_size=16)) * 12, draw(st.sampled_from(spare))))
+                continue
         t = draw(st.sampled_from(tables + ([wanted] if indexed else [])))
         ts = draw(st.text(alphabet='0123456789', min_size=10, max_size=10))
         code = draw(st.sampled_from(['A', 'I', ' ', 'X']))
@@ -195,7 +207,16 @@ def read_rows(case, data, expanded):
     kw = dict(param_config=case['param_config'], expanded=expanded, blocked=case['blocked'])
     if not (case['codec'] == 'latin_1' and len(data) % 2):
         kw['encoding'] = case['codec']          # latin_1 is the documented default: half of those cases rely on it
-    return list(mciipm.IpmParamReader(io.BytesIO(data), case['wanted'], **kw))
+    reader = mciipm.IpmParamReader(io.BytesIO(data), case['wanted'], **kw)
+    if len(data) % 3 == 0 and len(case['index']) >= 2:
+        # a second extract is opened before the first is read (two files side by side): same sub-ids, other tables
+        other = dict(case, index=[(sub, case['index'][(i + 1) % len(case['index'])][1]) for i, (sub, _) in enumerate(case['index'])], rows=[], runs=[])
+        other.pop('runs')
+        try:
+            mciipm.IpmParamReader(io.BytesIO(build(other, expanded)[0]), other['index'][0][1], **dict(kw, param_config=dict(case['param_config'] or PACKAGED_TABLES, **{other['index'][0][1]: {'x': {'start': 19, 'end': 20}}})))
+        except mciipm.MciIpmDataError:
+            pass
+    return list(reader)
 
 
 def csv_via_cli(case, data, expanded):
@@ -314,6 +335,7 @@ def check_refusals(case):
 
 def hyp_extracts(ctx, n):
     def body(case):
+        ctx.labels['has-filler-rows' if any(r[0].endswith('T9') for r in case['rows']) else 'no-filler-rows'] += 1
         wanted_rows = [i for i, r in enumerate(case['rows']) if r[0] == case['wanted']]
         foreign_between = len(wanted_rows) >= 2 and any(r[0] != case['wanted'] for r in case['rows'][wanted_rows[0]:wanted_rows[-1]])
         ctx.case(key=harness.digest({k: v for k, v in case.items()}), nontrivial=foreign_between,
